@@ -3,3 +3,4 @@ import MC.Props.C17
 import MC.Props.C12
 import MC.Props.C11
 import MC.Props.C13
+import MC.Props.C19
